@@ -2,6 +2,7 @@
 package rules
 
 import (
+	"sort"
 	"go/types"
 	"strings"
 
@@ -244,6 +245,8 @@ func Resolve(p *an.Prog) *Anchors {
 	}
 
 	// functions by role
+	nodeBuilders := map[*ssa.Function]int{}
+	treeBuilders := map[*ssa.Function]int{}
 	for _, f := range p.Funcs {
 		if !an.IsLibrary(f) {
 			continue
@@ -263,20 +266,46 @@ func Resolve(p *an.Prog) *Anchors {
 			case *ssa.Store:
 				ap := an.AP(x.Addr)
 				if recvIsNode && ap == "recv."+a.FSummary {
-					// node summary builder: computes the summary from the handler map (ranges over it, or hands it /
-					// its keys to a helper)
-					if rangesOver(f, "recv."+a.FHandlers) || mentions(f, "recv."+a.FHandlers) {
-						setFn(&a.NodeSummaryBuilder, f, "node summary builder")
+					// node summary builder: computes the summary from the handler map (ranges over it — preferred —, or
+					// hands it / its keys to a helper)
+					switch {
+					case rangesOver(f, "recv."+a.FHandlers):
+						nodeBuilders[f] = 2
+					case mentions(f, "recv."+a.FHandlers) && nodeBuilders[f] < 1:
+						nodeBuilders[f] = 1
 					}
 				}
 				if recvIsTree && ap == "recv."+a.FRootNode+"."+a.FSummary {
-					if rangesOver(f, "recv."+a.FCounters) || mentions(f, "recv."+a.FCounters) || callsMentioning(f, "recv."+a.FCounters) {
-						setFn(&a.TreeSummaryBuilder, f, "tree summary builder")
+					switch {
+					case rangesOver(f, "recv."+a.FCounters):
+						treeBuilders[f] = 2
+					case (mentions(f, "recv."+a.FCounters) || callsMentioning(f, "recv."+a.FCounters)) && treeBuilders[f] < 1:
+						treeBuilders[f] = 1
 					}
 				}
 			}
 		})
 	}
+	pickBest := func(cands map[*ssa.Function]int, dst **ssa.Function, role string) {
+		best := 0
+		for _, sc := range cands {
+			if sc > best {
+				best = sc
+			}
+		}
+		var fs []*ssa.Function
+		for f, sc := range cands {
+			if sc == best {
+				fs = append(fs, f)
+			}
+		}
+		sort.Slice(fs, func(i, j int) bool { return an.FuncKey(fs[i]) < an.FuncKey(fs[j]) })
+		for _, f := range fs {
+			setFn(dst, f, role)
+		}
+	}
+	pickBest(nodeBuilders, &a.NodeSummaryBuilder, "node summary builder")
+	pickBest(treeBuilders, &a.TreeSummaryBuilder, "tree summary builder")
 	// the method table is the map[string]int the node summary builder looks its keys up in
 	if len(tableCands) == 1 {
 		a.MethodTable = tableCands[0]
